@@ -67,15 +67,57 @@ Proof. exact flatten_stack_agrees. Qed.
 Print Assumptions C14_flatten_stack_agrees.
 
 (* ---- every role of every loaded tree, after any runtime-variable updates ---- *)
+(* [w_own w] are the maps the role shows as its own, [w_hid w] the levels hidden right above
+   them (none but for a loaded include role: its own defaults / vars, which sit between the
+   sub-workflow root's maps and the parent's), [above] the role's ancestors, nearest first *)
 Theorem C14_every_role : forall env t ops vs w,
   run_tree env t ops = Some vs -> In w vs ->
-  exists roles, roles <> [] /\ w_own w = hd (mkLevel [] [] []) roles /\
+  exists above, let roles := w_own w :: w_hid w ++ above in
     (forall k, assoc k (w_stack w) = first_hit k (sources (roles ++ [env]))) /\
     (forall k, assoc k (l_defaults (w_maps w)) = first_hit k (chain l_defaults (roles ++ [env]))) /\
     (forall k, assoc k (l_vars (w_maps w)) = first_hit k (chain l_vars (roles ++ [env]))) /\
     (forall k, assoc k (l_user (w_maps w)) = first_hit k (chain l_user (roles ++ [env]))).
 Proof. exact every_role. Qed.
 Print Assumptions C14_every_role.
+
+(* ---- include roles (includerole.go) ---- *)
+
+(* an include role is a level of the path of its own: its defaults / vars are resolved like any
+   role's ([lvi]; iterator locals go into its vars), the root of the sub-workflow it names is
+   resolved under it ([lvs]), and EVERY role of the included subtree - the include role itself
+   (roles = []), its children, their descendants at any depth - has the sub-workflow root's
+   level and then the include role's own level right above the include role's ancestors *)
+Theorem C14_include_levels : forall anc locals nm d v sd sv ch ts,
+  load anc locals (RIncl nm d v sd sv ch) = Some ts ->
+  exists n lvi sn lvs,
+    resolve_level anc locals nm d v = Some (n, lvi) /\
+    resolve_level (lvi :: anc) [] None sd sv = Some (sn, lvs) /\
+    forall a n' hid p, In (a, n', hid, p) (forest_nodes anc ts) ->
+      exists roles, p = roles ++ lvs :: lvi :: anc.
+Proof. exact include_levels. Qed.
+Print Assumptions C14_include_levels.
+
+(* so, by the precedence theorem over such paths, the include role's own definitions are the
+   nearest ancestor's for the included subtree: a var of the include role (the iterator local
+   that generated it, for one) wins over every var and default of the include role's ancestors
+   and of the environment ... *)
+Theorem C14_include_var_reaches_subtree : forall roles lvs lvi anc k x,
+  first_hit k (chain l_user (roles ++ lvs :: lvi :: anc)) = None ->
+  first_hit k (chain l_vars (roles ++ [lvs])) = None ->
+  assoc k (l_vars lvi) = Some x ->
+  assoc k (consolidated (roles ++ lvs :: lvi :: anc)) = Some x.
+Proof. exact include_var_reaches_subtree. Qed.
+Print Assumptions C14_include_var_reaches_subtree.
+
+(* ... and a default of the include role over every default above it *)
+Theorem C14_include_default_reaches_subtree : forall roles lvs lvi anc k x,
+  first_hit k (chain l_user (roles ++ lvs :: lvi :: anc)) = None ->
+  first_hit k (chain l_vars (roles ++ lvs :: lvi :: anc)) = None ->
+  first_hit k (chain l_defaults (roles ++ [lvs])) = None ->
+  assoc k (l_defaults lvi) = Some x ->
+  assoc k (consolidated (roles ++ lvs :: lvi :: anc)) = Some x.
+Proof. exact include_default_reaches_subtree. Qed.
+Print Assumptions C14_include_default_reaches_subtree.
 
 (* ---- template stages (fields.go) ---- *)
 
@@ -194,7 +236,8 @@ Print Assumptions C14_task_command_var_over_default.
 (* non-vacuity: a three-level path (role, parent, environment) where key a is an empty user
    value at the environment, a non-empty var at the parent and a default at the role; key b
    only a default of the parent, hidden by an empty default of the role; a loadable role whose
-   var references its own default; a task whose class defines a key both ways (the var wins). *)
+   var references its own default; an iterated include role; a task whose class defines a key both
+   ways (the var wins). *)
 Example C14_nonvacuous :
   let a := [97] in let b := [98] in let c := [99] in
   let role := mkLevel [(a, [120]); (b, [])] [] [] in
@@ -210,11 +253,21 @@ Example C14_nonvacuous :
   (exists vs, run_tree env (RRole None [(a, VLit [])] []
                               [RIter [105] [[48]; [49]] (RRole (Some [105]) [] [(b, VRef [105])] [])])
                        [([0; 1], MSet a [122])] = Some vs /\ length vs = 3%nat) /\
+  (* an iterated include role with a default of its own, under a root and an environment that
+     define the same keys: the leaf of the sub-workflow sees the include role's values *)
+  (exists vs, run_tree env (RRole None [([100], VLit [121])] [([105], VLit [122])]
+                              [RIter [105] [[48]] (RIncl None [([100], VLit [120])] [] [] []
+                                                         [RRole None [] [(b, VRef [100])] []])])
+                       [] = Some vs /\
+              exists w, nth_error vs 2 = Some w /\ w_addr w = [0; 0; 0] /\
+                        assoc [100] (w_stack w) = Some [120] /\ assoc b (w_stack w) = Some [120] /\
+                        assoc [105] (w_stack w) = Some [48]) /\
   (exists st, cmd_stack (consolidated p) [] [(b, VLit [120]); ([100], VLit [120])]
                         [([100], VLit [121])] = Some st /\
               assoc [100] st = Some [121] /\ assoc b st = Some []).
 Proof.
   vm_compute. repeat split; try reflexivity.
   - eexists. split; reflexivity.
+  - eexists. split; [reflexivity|]. eexists. repeat split; reflexivity.
   - eexists. repeat split; reflexivity.
 Qed.
